@@ -3343,16 +3343,21 @@ class StateEngine(object):
 
                 event["data"] = merge_result(data, context, result, state)
             except IntrinsicFailure as e:
+                # Reset event data back to the original Map or Parallel state
+                # input because handle_error could result in a Retry/Catch.
+                event["data"] = data
                 handle_error(state, "States.IntrinsicFailure", str(e))
                 # Acknowledge the events for each branch's terminal state
                 self.acknowledge_event_list(event_ids)
                 return
             except ResultPathMatchFailure as e:
+                event["data"] = data  # See comment above
                 handle_error(state, "States.ResultPathMatchFailure", str(e))
                 # Acknowledge the events for each branch's terminal state
                 self.acknowledge_event_list(event_ids)
                 return
             except (PathMatchFailure, Exception) as e:
+                event["data"] = data  # See comment above
                 handle_error(state, "States.Runtime", str(e))
                 # Acknowledge the events for each branch's terminal state
                 self.acknowledge_event_list(event_ids)
